@@ -41,6 +41,26 @@ func c14(r *core.Report, p *core.Prog, thorough bool) {
 	r.Rule("C14.finalize-guards", "finalize: finishAllocation dominated by IsValidFinalizer(txn.ClientID) == true, alloc.Finalized == false and alloc.Expiration <= txn.CreationDate")
 	r.Rule("C14.refund", "finishAllocation: one transfer (contract id → alloc.Owner, alloc.WritePool) on every success path, error aborting; WritePool is zeroed only after it; the transfer is the last token movement")
 	r.Rule("C14.removed", "cancelAllocationRequest and finalizeAllocation delete the allocation's node on every success path, error aborting")
+	r.Rule("C14.arg-roles", "in the call trees of cancel_allocation and finalize_allocation no call passes, to one of two same-typed parameters, a value named exactly like the other parameter (a swapped round / limit / timestamp changes which challenges count as passed and so what the blobbers are paid)")
+	{
+		hs := BuildHandlers(p)
+		var roots []*ssa.Function
+		roots = append(roots, hs.Get("storagesc:cancel_allocation")...)
+		roots = append(roots, hs.Get("storagesc:finalize_allocation")...)
+		if len(roots) == 0 {
+			r.Unresolved("C14.arg-roles", "storagesc cancel_allocation / finalize_allocation handlers")
+		} else {
+			cl := StaticClosure(roots, func(f *ssa.Function) bool { return f.Pkg == nil || f.Pkg.Pkg.Path() != pkgStorage })
+			swaps, n := ArgRoleSwaps(cl)
+			for i, sw := range swaps {
+				r.Fail("C14.arg-roles", fmt.Sprintf("%s->%s#%d", core.EnclosingNamed(sw.Call.Parent()).Name(), sw.Callee.Name(), i+1), p.Pos(sw.Call.Pos()), sw.Detail)
+			}
+			if len(swaps) == 0 {
+				r.Pass("C14.arg-roles", "closing-call-trees", p.Pos(roots[0].Pos()), fmt.Sprintf("%d call sites with same-typed parameters, no argument carries the other parameter's name", n))
+			}
+			r.Floor("C14.arg-roles", "call sites with two same-typed parameters", n, 10)
+		}
+	}
 	r.Rule("C14.lock-guard", "writePoolLock: the WritePool credit is dominated by !(alloc.Finalized || alloc.Canceled)")
 
 	recv := "(*" + pkgStorage + ".StorageSmartContract)."
